@@ -1,5 +1,7 @@
 import MalVerif.Model.JsonUtil
 import MalVerif.Model.AGraph
+import MalVerif.Model.AGS
+import MalVerif.Model.Query
 open Lean MalVerif
 
 namespace Drv
@@ -27,10 +29,102 @@ def opApriori (j : Json) : R Json := do
   let idx := List.range g.length
   pure <| jO [("viable", jsonOfList jB (idx.map v)), ("necessary", jsonOfList jB (idx.map n))]
 
+
+/-! ### attack-graph histories (C09, C11, C12, C13) -/
+open AGS in
+def obsSt (s : St) : Json :=
+  let nid (r : Nat) : Json := jI (s.nobj r).id
+  let aid (a : Nat) : Json := jI (s.aobj a).id
+  jO [("nodes", jsonOfList (fun r =>
+          let o := s.nobj r
+          Json.arr #[jI o.id, jS (fullName o), jsonOfList nid o.children, jsonOfList nid o.parents,
+                     jsonOfList aid o.compBy, jB o.viable, jB o.necessary]) s.nodes),
+      ("attackers", jsonOfList (fun a =>
+          let o := s.aobj a
+          Json.arr #[jI o.id, jS o.name, jsonOfList nid o.entry, jsonOfList nid o.reached]) s.attackers),
+      ("idIdx", jsonOfList (fun (e : Int × Nat) => Json.arr #[jI e.1, nid e.2]) s.idIdx),
+      ("nameIdx", jsonOfList (fun (e : String × Nat) => Json.arr #[jS e.1, nid e.2]) s.nameIdx),
+      ("attIdx", jsonOfList (fun (e : Int × Nat) => Json.arr #[jI e.1, aid e.2]) s.attIdx),
+      ("next", Json.arr #[jI s.nextNode, jI s.nextAtt])]
+
+def errName : AGS.Err → String
+  | .valueError => "ValueError" | .attackGraphException => "AttackGraphException" | .lookupError => "LookupError"
+
+open AGS in
+def agStep (s : St) (j : Json) : R (St × Json × Json) := do
+  let k ← jfield jstr j "k"
+  let ok (s' : St) (out : Json := Json.null) : R (St × Json × Json) := pure (s', Json.null, out)
+  let refs (l : List Nat) : Json := jsonOfList (fun r => jI (s.nobj r).id) l
+  match k with
+  | "add_node" =>
+    let o : NodeObj := { name := ← jfield jstr j "name", asset := ← jfieldOpt jstr j "asset",
+                         type := ← parseNType (← jfield jstr j "type"),
+                         viable := ← jfield jbool j "viable", necessary := ← jfield jbool j "necessary",
+                         defOne := ← jfield jbool j "defOne", suppress := ← jfield jbool j "suppress" }
+    match addNode s o (← jfieldOpt jint j "id") with
+    | .ok s' => ok s'
+    | .error e => pure (s, jS (errName e), Json.null)
+  | "link" =>
+    let p ← jfield jnat j "p"; let c ← jfield jnat j "c"
+    ok (updN (updN s p (fun o => { o with children := o.children ++ [c] })) c (fun o => { o with parents := o.parents ++ [p] }))
+  | "remove_node" => ok (removeNode s (← jfield jnat j "n"))
+  | "add_attacker" =>
+    match addAttacker s (← jfield jstr j "name") (← jfieldOpt jint j "id") (← jfield (jlist jint) j "entry")
+            (← jfield (jlist jint) j "reached") with
+    | .ok s' => ok s'
+    | .error e => pure (s, jS (errName e), Json.null)
+  | "remove_attacker" => ok (removeAttacker s (← jfield jnat j "a"))
+  | "compromise" => ok (compromise s (← jfield jnat j "a") (← jfield jnat j "n"))
+  | "undo" => ok (undo s (← jfield jnat j "a") (← jfield jnat j "n"))
+  | "attach" =>
+    let atts ← jfield (jlist (fun e => do
+      let l ← jarr e
+      match l with
+      | [nm, eps] => pure ((← jstr nm), (← jlist jstr eps))
+      | _ => throw "bad attach entry")) j "atts"
+    match attach s atts with
+    | .ok s' => ok s'
+    | .error e => pure (s, jS (errName e), Json.null)
+  | "set_labels" =>
+    let labs ← jfield (jlist (fun e => do
+      let l ← jarr e
+      match l with
+      | [r, v, n] => pure ((← jnat r), (← jbool v), (← jbool n))
+      | _ => throw "bad label entry")) j "labels"
+    ok (setLabels s labs)
+  | "prune" => ok (prune s)
+  | "trav" => ok s (jB (trav s (← jfield jnat j "a") (← jfield jnat j "n")))
+  | "surface" => ok s (refs (surface s (← jfield jnat j "a")))
+  | "update_surface" =>
+    ok s (refs (updateSurface s (← jfield jnat j "a") (← jfield (jlist jnat) j "cur") (← jfield (jlist jnat) j "nodes")))
+  | "defense_surface" => ok s (refs (defenseSurface s))
+  | "enabled_defenses" => ok s (refs (enabledDefenses s))
+  | "lookup" =>
+    let ids ← jfield (jlist jint) j "ids"
+    let names ← jfield (jlist jstr) j "names"
+    let aids ← jfield (jlist jint) j "aids"
+    let f (o : Option Nat) : Json := match o with | some r => jI (s.nobj r).id | none => Json.null
+    let fa (o : Option Nat) : Json := match o with | some r => jI (s.aobj r).id | none => Json.null
+    ok s (jO [("ids", jsonOfList (fun i => f (getNodeById s i)) ids),
+              ("names", jsonOfList (fun n => f (getNodeByName s n)) names),
+              ("aids", jsonOfList (fun i => fa (getAttackerById s i)) aids)])
+  | _ => throw s!"bad ag op {k}"
+
+def opAgHist (j : Json) : R Json := do
+  let ops ← jfield jarr j "ops"
+  let mut s : AGS.St := {}
+  let mut outs : Array Json := #[]
+  for o in ops do
+    let (s', err, out) ← agStep s o
+    s := s'
+    outs := outs.push (jO [("err", err), ("out", out), ("obs", obsSt s)])
+  pure (Json.arr outs)
+
 def dispatch (j : Json) : R Json := do
   let op ← jfield jstr j "op"
   match op with
   | "apriori" => opApriori j
+  | "ag_hist" => opAgHist j
   | _ => throw "bad-op"
 
 def handle (line : String) : String :=
